@@ -3,6 +3,10 @@
    regenerated from the source on every run and says which repairs the code contains
    (name check in NodeStreamer::next, exists flag after a removed clash, sparse guard).
 
+   (Round 4, below: nodes_ok derived from the tree; merge_walk_classifies for arbitrary destinations;
+   add_file_plan_correct / restore_contents_writes_plan with real match flags and from_file reads.
+   What remains is the joint induction that assembles them — NOTES.md gap G1''.)
+
    restore_exact: PROVED for every destination that holds nothing at a snapshot path (fresh
    destination, or any extras) — restore_exact_fresh_dest below, all trees / options / worlds —
    via the four lemmas merge_walk_extras_only, add_file_plan_correct_fresh,
@@ -25,7 +29,7 @@
      missing / extra entries and shared blobs); the executable form of the statement is evaluated
      by the check on every generated case, on the model and on the real code. *)
 From Verif.Base Require Import Tactics.
-From Verif.C14 Require Import Model Extracted Witness Proofs Proofs2 Proofs3 Exact1 Exact2 Exact3 Exact4 Exact5 Exact6 Exact7 Exact8.
+From Verif.C14 Require Import Model Extracted Witness Proofs Proofs2 Proofs3 Exact1 Exact2 Exact3 Exact4 Exact5 Exact6 Exact7 Exact8 Order Merge Merge2 Merge3 Contents2 Plan2.
 Local Open Scope N_scope.
 
 (* No path outside the destination — nor the destination root itself — is created, modified or
@@ -239,3 +243,118 @@ Example restore_exact_fresh_dest_tree_hyps :
   forallb nnb snapY = true /\ flat_list [] snapY = nodesY /\ nodes_ok nodesY /\ dirs_ok droot0 worldY /\
   (forall x, In x nodesY -> fs_get worldY (Pn droot0 x) = None).
 Proof. exact (conj (proj1 exampleY_tree) (conj (proj2 exampleY_tree) (proj2 exampleY_hyps))). Qed.
+
+(* ================================================================ gap G1', round 4 *)
+
+(* (1) nodes_ok is no hypothesis any more: it follows from the tree — visited names single normal
+   components, sibling names distinct in every visited directory, one byte string per
+   (pack, location). *)
+Theorem nodes_ok_from_tree : forall roots,
+  forallb nnb roots = true -> sibs_distinct roots -> index_consistent roots -> nodes_ok (flat_list [] roots).
+Proof. exact nodes_ok_of_tree. Qed.
+Print Assumptions nodes_ok_from_tree.
+
+Theorem restore_exact_fresh_dest_of_tree : forall o droot roots s,
+  forallb nnb roots = true -> sibs_distinct roots -> index_consistent roots -> dirs_ok droot s ->
+  (forall x, In x (flat_list [] roots) -> fs_get s (Pn droot x) = None) ->
+  r_out (restore code_cfg o droot roots s) = OOk /\
+  (forall x, In x (flat_list [] roots) -> good droot (r_fs (restore code_cfg o droot roots s)) x) /\
+  (forall q e, strictly_under droot q = true -> fs_get s q = Some e ->
+     if o_delete o then fs_get (r_fs (restore code_cfg o droot roots s)) q = None
+     else fs_get (r_fs (restore code_cfg o droot roots s)) q = Some e).
+Proof. exact restore_exact_fresh_dest_of_tree_lemma. Qed.
+Print Assumptions restore_exact_fresh_dest_of_tree.
+
+(* (2) both listings of the merge-walk are strictly sorted by the component-wise order *)
+Theorem walk_sorted : forall droot s, NoDup (map fst s) -> ssD (walk droot s).
+Proof. exact walk_sorted_lemma. Qed.
+Print Assumptions walk_sorted.
+Theorem node_stream_sorted : forall roots, forallb nnb roots = true -> sibs_sorted roots ->
+  StronglySorted (fun p q => ncmp p q = Lt) (map fst (flat_list [] roots)).
+Proof. exact flat_sorted. Qed.
+Print Assumptions node_stream_sorted.
+(* the paths below p form an interval: what lies after p and not below it lies after all of them,
+   so `drop_under` (skip_current_dir) removes exactly the skipped subtree from a sorted listing *)
+Theorem paths_below_form_interval : forall p y z,
+  is_prefix p y = true -> ncmp p z = Lt -> is_prefix p z = false -> ncmp y z = Lt.
+Proof. exact interval. Qed.
+Print Assumptions paths_below_form_interval.
+
+(* merge_walk_classifies, arbitrary destinations (entries AT snapshot paths included): the
+   comparison of the walk is Path::cmp in the source (regenerated fact), and then for every tree
+   with sorted children and every world with unique paths:
+   collect_and_prepare = the interpretation `run` of the pure classification `classify`
+   (same control flow); every node is visited exactly once, in order (ev_nodes);
+   EvMatch/EvClash d y: d stands at y's path, same type / other type; EvExtra d: d's path is no
+   snapshot path; EvNew y: no walker entry stands at y's path (ev_ok);
+   the classified entries are a strictly sorted sub-listing of the walk (each at most once) and
+   every walker entry is classified or lies below a classified extra/clashing directory
+   (covered_by); under SameTypeOrDelete a clash only occurs with delete (or is an identical
+   symlink).  The invariant behind it: processed nodes lie before all remaining walker entries
+   (classify_spec), which is what a string-wise comparison breaks. *)
+Theorem merge_walk_classifies : merge_cmp_component_wise = true /\
+  forall o droot roots s,
+  forallb nnb roots = true -> sibs_sorted roots -> NoDup (map fst s) ->
+  let nodes := flat_list [] roots in
+  let dst := walk droot s in
+  let evs := classify droot (S (length dst + length nodes)) dst nodes in
+  stream code_cfg roots = map toO nodes /\
+  ssD dst /\ StronglySorted (ltN droot) nodes /\
+  collect_and_prepare code_cfg o droot s (stream code_cfg roots) = run code_cfg o droot evs s plan0 /\
+  ev_nodes evs = nodes /\
+  Forall (ev_ok droot nodes dst nodes) evs /\
+  ssD (ev_entries evs) /\
+  (forall d, In d dst -> covered_by evs d) /\
+  (SameTypeOrDelete o droot nodes s ->
+   forall d y, In (EvClash d y) evs -> o_delete o = true \/ exists t, snd y = ILink t /\ snd d = ELink t).
+Proof. exact merge_walk_classifies_code. Qed.
+Print Assumptions merge_walk_classifies.
+Example tree_hyps :
+  forallb nnb snapY = true /\ sibs_sorted snapY /\ sibs_distinct snapY /\ index_consistent snapY /\
+  NoDup (map fst worldY) /\ dirs_ok droot0 worldY /\
+  (forall x, In x (flat_list [] snapY) -> fs_get worldY (Pn droot0 x) = None).
+Proof. exact exampleY_tree_hyps. Qed.
+
+(* (3) the plan invariant with REAL match flags and the contents phase over it (strongest form
+   landed; the assembly with the merge-walk into restore_exact for destinations with entries at
+   snapshot paths is the remaining part of G1', see NOTES.md). *)
+
+(* add_file for a path that holds nothing, a file of another size, or a file of the snapshot's size
+   that gets compared (non-empty; verify_existing or another mtime): GPlanInv is kept — names,
+   lengths, preexisting flags; every location is blob k of its file at the blob's offset, and its
+   `matches` flag is only set if the existing file has the snapshot's size and holds the blob
+   there; every blob has a location. *)
+Theorem add_file_plan_correct : forall o droot s pl (gfiles : list gfileT) l blobs size mt base,
+  GPlanInv pl gfiles -> consistent (map fst (gfiles ++ [((l, blobs), base)])) ->
+  size = N.of_nat (blen blobs) -> planned o s (droot ++ l) size mt base ->
+  GPlanInv (add_file o droot s pl (np l) blobs size mt) (gfiles ++ [((l, blobs), base)]).
+Proof. exact add_file_general. Qed.
+Print Assumptions add_file_plan_correct.
+Example add_file_plan_correct_hyps :
+  GPlanInv plan0 [] /\ planned (mkO false true false) worldY (droot0 ++ [0%N]) 1 1000 (Some [5%N]) /\
+  planned (mkO false false false) worldY (droot0 ++ [5%N]) 3 1000 None.
+Proof.
+  split; [exact GPlanInv0|]. split.
+  - eapply pl_compared; [reflexivity|reflexivity|discriminate|left; reflexivity].
+  - apply pl_absent. reflexivity.
+Qed.
+
+(* restore_contents over such a plan (needs the sparse repair: c_sparse_pre): Ok; set_length once per
+   file (a pre-existing file keeps its old bytes, resized); locations flagged `matches` are not
+   written; an entry with a matching location is read from that existing file (from_file: the read
+   returns the blob because a flagged region is never made wrong) and written to the other files;
+   holes only in files created by this restore; afterwards every planned file is the concatenation
+   of its blobs and nothing else changed. *)
+Theorem restore_contents_writes_plan : forall c o droot (gfiles : list gfileT) s0 pl,
+  c_sparse_pre c = true -> files_ok (map fst gfiles) -> GPlanInv pl gfiles ->
+  dirs_ok droot s0 -> parents_ok droot (map fst gfiles) s0 -> (forall g, In g gfiles -> gstate0 droot s0 g) ->
+  exists s' reads, restore_contents c o droot s0 pl = (OOk, s', reads) /\ dirs_ok droot s' /\
+    (forall g, In g gfiles -> exists mt mo, fs_get s' (P droot (fst g)) = Some (EFile (econt (snd (fst g))) mt mo)) /\
+    (forall q, (forall g, In g gfiles -> q <> P droot (fst g)) -> fs_get s' q = fs_get s0 q).
+Proof. exact restore_contents_of_plan. Qed.
+Print Assumptions restore_contents_writes_plan.
+Example restore_contents_writes_plan_hyps : c_sparse_pre code_cfg = true /\ files_ok (map fst (@nil gfileT)) /\ GPlanInv plan0 [].
+Proof.
+  split; [reflexivity|]. split; [|exact GPlanInv0].
+  constructor; [constructor|intros f []|intros f f' b b' []].
+Qed.
